@@ -52,7 +52,9 @@ pub fn workloads() -> Vec<Workload> {
             name: "W2-first-use-vs-override",
             about: "first call of one thread against register_function of a built-in name in another: the override must not be lost to a late lazy initialisation",
             pre: vec![],
-            threads: vec![vec![Exec("max(1, 2) + 1")], vec![RegFn("min", "X"), Exec("min(1, 2)")]],
+            // (the second evaluation runs after a first-use initialisation that was still in
+            // flight during the first one has certainly finished)
+            threads: vec![vec![Exec("max(1, 2) + 1")], vec![RegFn("min", "X"), Exec("min(1, 2)"), Exec("min(1, 2)")]],
             write_set: vec![3],
         },
         Workload {
@@ -110,6 +112,20 @@ pub fn workloads() -> Vec<Workload> {
             pre: vec![Exec("1 + 1"), RegInfix("pick", 105, true, "old")],
             threads: vec![vec![RegInfix("pick", 105, true, "new")], vec![Exec("10 pick 20"), Exec("10 pick 20")]],
             write_set: vec![1],
+        },
+        Workload {
+            name: "W10-racing-tokenisation-vs-registration",
+            about: "after warm-up: an evaluation tokenises a word while another thread registers it as an infix operator and then uses it itself (whatever the first thread saw, the registrar's own later evaluation must see the operator)",
+            pre: vec![Exec("1 + 1")],
+            threads: vec![vec![Exec("10 pk 20")], vec![RegInfix("pk", 105, true, "K"), Exec("10 pk 20"), Exec("10 pk 20")]],
+            write_set: vec![1],
+        },
+        Workload {
+            name: "W11-two-registrations-after-three",
+            about: "after warm-up and three earlier function registrations: two threads each register a function and call both (no registration may be lost, whatever the table size)",
+            pre: vec![Exec("1 + 1"), RegFn("fa", "a"), RegFn("fb", "b"), RegFn("fc", "c")],
+            threads: vec![vec![RegFn("fd", "d"), Exec("[fd(), fa()]")], vec![RegFn("fe", "e"), Exec("[fe(), fb()]")], vec![Exec("fc()")]],
+            write_set: vec![3],
         },
         Workload {
             name: "W9-first-use-register-x2",
@@ -485,7 +501,7 @@ impl Prop for C13 {
         let ws = workloads();
         let w = &ws[stage];
         out.idx = Some(0);
-        let jobs = std::env::var("VERIF_JOBS").ok().and_then(|s| s.parse().ok()).unwrap_or(16usize);
+        let jobs = std::env::var("VERIF_JOBS").ok().and_then(|s| s.parse().ok()).unwrap_or_else(|| std::thread::available_parallelism().map(|n| n.get()).unwrap_or(8).clamp(2, 32));
         // sequential reference: every order of the calls, each in a fresh process
         let mut allowed: BTreeSet<String> = BTreeSet::new();
         for order in sequential_orders(w) {
